@@ -69,11 +69,33 @@ def release_kind(walk_obs, k):
     return "none"
 
 
+def restart_kind(walk_obs, k):
+    """For a KeepAfterRestart failure: was there, at the latest crash, a Service whose (not yet reconciled)
+    request names an address recorded for another Service?  Only used to name the failure."""
+    c = None
+    for r in range(k, -1, -1):
+        if walk_obs[r].get("crashed"):
+            c = r
+            break
+    if c is None:
+        return "nocrash"
+    api = walk_obs[c]["api"]
+    for t, v in api.items():
+        req = v["spec"].get("reqIPs") or []
+        if req and sorted(req) != sorted(v["status"]):
+            for u, w in api.items():
+                if u != t and set(req) & set(w["status"]):
+                    return "unreconciled-request-for-recorded-address"
+    return "other"
+
+
 def signature(fail, obs, walk_obs=None, k=None):
     """Stable description of a failure: predicate and the kind of step; for starvation, what
     released the address."""
     if fail == "C07.NoStarvation" and walk_obs is not None:
         return "%s|release=%s" % (fail, release_kind(walk_obs, k))
+    if fail == "C06.KeepAfterRestart" and walk_obs is not None:
+        return "%s|kind=%s" % (fail, restart_kind(walk_obs, k))
     return "%s|op=%s" % (fail, obs.get("op"))
 
 
